@@ -7,3 +7,4 @@ import ArtapModel.Props.C11
 import ArtapModel.Props.C03
 import ArtapModel.Props.C13
 import ArtapModel.Props.C16
+import ArtapModel.Props.C08
